@@ -157,6 +157,7 @@ def explore_state(run, state, name, where, r, budget):
 
 
 def attribute_states(run, r, thys, cap):
+    import time
     """States built from the theorems that carry a hint attribute: the goal is an instance of the side the hint is about
     (left / right side of the equation under a fresh predicate for rewriting hints, the conclusion for backward hints,
     the first assumption as a fact for forward hints), with the schematic variables turned into free variables."""
@@ -175,7 +176,11 @@ def attribute_states(run, r, thys, cap):
         r.shuffle(names)
         rare = [n for n in names if any(a in ('hint_rewrite_sym', 'hint_forward', 'hint_resolve') for a in theory.thy.get_attributes(n))]
         names = rare[:cap // 2] + [n for n in names if n not in rare[:cap // 2]]
+        t_thy = time.time()
         for name in names[:cap]:
+            if time.time() - t_thy > 180:
+                run.stat('attribute_budget_reached:' + thy)
+                break
             attrs = theory.thy.get_attributes(name)
             try:
                 th = theory.get_theorem(name)
@@ -274,7 +279,14 @@ def run_check(tier, seed):
         thms = thms[:40]
     n_sug = n_states = 0
     first = None
+    import time
+    t_replay = time.time()
+    if tier != 'quick':
+        r.shuffle(thms)
     for thy, item in thms:
+        if tier != 'quick' and time.time() - t_replay > 1200:
+            run.stat('replay_budget_reached')
+            break
         try:
             state = init_state(thy, item)
             copy.copy(state).check_proof()
